@@ -1,9 +1,9 @@
 CONSTANTS
   w1 = w1
   w2 = w2
-  Wakers = {w1}
-  Target <- TgtC
-  Tasks = {}
+  Wakers = {w1,w2}
+  Target <- TgtD
+  Tasks = {"t1"}
   QCap = 1
   Mode = "external"
   Driver = "iour"
@@ -14,9 +14,10 @@ CONSTANTS
   Hosts <- BothHosts
   Muts = {"none"}
   Ops = {"o1"}
-  Timers = {"s1"}
-  Jobs = {"j1"}
-  Owner <- OwnC
+  Timers = {}
+  Jobs = {}
+  Owner <- OwnD
   AnyTurn = TRUE
-SPECIFICATION XSpec
-INVARIANTS XTypeOK RealSafe
+SPECIFICATION XFairSpec
+INVARIANTS XTypeOK PendingBound TypeOK RealSafe FindingStrict
+PROPERTIES Completes WakeSeen OpSeen
